@@ -173,7 +173,7 @@ def run_case(ctx, kind_, idx):
     n = R.gen_n(rng)
     kw, a = R.gen_params(rng, strat, n)
     small_exp = strat.startswith("Exp") and kw.get("exp", 2.0) < R.K1_EXP_LIMIT
-    x, y, meta = R.gen_series(rng, 2, 60, ties_share=0.45, real_valued=small_exp)
+    x, y, meta = R.gen_series(rng, 2, 60, ties_share=0.45, real_valued=small_exp, long_share=R.LONG_SHARE)
     if strat == "CubicSplineRFA" and meta["m"] < 2:
         return
     x, y_arg, y = R.narrow_series(rng, x, y, meta)
